@@ -584,6 +584,29 @@ pub fn run_c02(ctx: &mut Ctx, known: &Known) {
             }
         }
     }
+    // keys that are paths against documents that hold a field NAMED like the path; float equality
+    // between neighbouring doubles
+    {
+        let y = |t: &str| -> Yaml { serde_yaml::from_str(t).expect("yaml") };
+        let pdocs: Vec<Yaml> = vec![
+            y("{'proc.name': very evil}"), y("{proc: {name: evil}}"), y("{proc: {name: good}, 'proc.name': evil}"), y("{proc: {name: evil}, 'proc.name': good}"),
+            y("{args: [w, x]}"), y("{'args[1]': x}"), y("{args: [w, y], 'args[1]': x}"), y("{event: {'user.id': 0}}"), y("{event: {user: {id: 0}}}"),
+            y("{event: {user: {id: 1}, 'user.id': 0}}"), y("{}"),
+        ];
+        for body in ["{proc.name: '*evil*'}", "{'args[1]': x}", "{event: {user.id: 0}}", "{proc.name: '*evil*', 'args[1]': x}", "[{proc.name: evil}, {event: {user.id: 0}}]"] {
+            for cond in [gen::Cond::Id("A".into()), gen::Cond::Not(Box::new(gen::Cond::Id("A".into())))] {
+                fixed.push((vec![("A".into(), y(body))], cond, pdocs.clone()));
+            }
+        }
+        let fl = |x: f64| -> Yaml { map1("r", Yaml::Number(x.into())) };
+        let fdocs: Vec<Yaml> = vec![fl(0.1 + 0.2), fl(0.3), fl(1e-300), fl(-2.5e-17), fl(0.0), fl(-0.0), fl(0.1), fl(f64::from_bits(0.1f64.to_bits() + 1)), fl(1.0), fl(1.0 + f64::EPSILON),
+            fl(f64::INFINITY), fl(f64::NEG_INFINITY), fl(1e300), map1("r", ys("0.3")), map1("r", Yaml::Number(0u64.into()))];
+        for body in ["{r: 0.3}", "{r: '=0.3'}", "{r: 0.0}", "{r: 0.1}", "{r: 1.0}", "{r: [0.3, 7.5]}", "{not(r): 0.1}", "{r: .inf}", "{r: '>=0.3'}", "{r: '<=0.3'}", "{flt(r): '=0.3'}"] {
+            for cond in [gen::Cond::Id("A".into()), gen::Cond::Not(Box::new(gen::Cond::Id("A".into())))] {
+                fixed.push((vec![("A".into(), y(body))], cond, fdocs.clone()));
+            }
+        }
+    }
     let n_fixed = fixed.len();
     for i in 0..n + n_fixed {
         let mut r = Rng::new(ctx.seed.wrapping_mul(6151).wrapping_add(i as u64));
